@@ -252,12 +252,12 @@ type Expect struct {
 	What      string // violation kind
 	TermFrame int    // index of the terminal frame (or number of complete frames for eof)
 	// state at EOF
-	OpenMsg     bool
-	OpenComp    bool
-	OpenRaw     []byte
-	OpenType    byte
-	FirstData   int // index of the first data frame (-1 if none)
-	PingsBefore int // pings before FirstData
+	OpenMsg         bool
+	OpenComp        bool
+	OpenRaw         []byte
+	OpenType        byte
+	FirstData       int  // index of the first data frame (-1 if none)
+	PingsBefore     int  // pings before FirstData
 	DontCareContent bool // a compressed message did not inflate cleanly
 	PongsAtLeast    bool // lenient mode: more pongs than Pings are acceptable
 	TermInMsg       bool // the terminal frame arrived while a fragmented message was open
